@@ -1140,7 +1140,10 @@ def c10(ix: Index) -> None:
         # (a) cancelled at that time and stops executing
         late_ops = [r for r in ix.R if r['k'] == 'op' and r['op'] != 'cleanup_disp' and r['by'] == inv and r['vt'] > deadline + 1e-3]
         # blocking (sync) user code that holds the loop across the deadline delays the delivery of the cancellation by that much
-        blocked = sum(_busy_len(ix, r) for r in ix.R if r['k'] == 'op' and r['op'] == 'busy' and r['vt'] <= deadline + 1e-3 and r['vt'] + _busy_len(ix, r) >= deadline - 1e-3) if has_busy else 0.0
+        # (every blocking stretch that overlaps [deadline, observed cancellation]: several may follow one another without the loop
+        # getting a turn in which the cancelled task could run)
+        t_obs = x['vt'] if x is not None else deadline
+        blocked = sum(_busy_len(ix, r) for r in ix.R if r['k'] == 'op' and r['op'] == 'busy' and r['vt'] <= t_obs + 1e-3 and r['vt'] + _busy_len(ix, r) >= deadline - 1e-3) if has_busy else 0.0
         if x is None or x['out'] != 'cancel' or x['vt'] > deadline + blocked + 1e-3 or late_ops:
             if ended is None or ended > deadline + blocked + 1e-3 or late_ops:
                 ix.v('C10', 'handler-runs-past-timeout', None, ev=i['ev'], h=i['h'], deadline=deadline, exit=x and {'out': x['out'], 'vt': x['vt']}, late_ops=len(late_ops))
